@@ -140,6 +140,25 @@ def execute(case):
     if abs((float(lz_s) - float(lz)) - beta * c) > tol_s:
         raise Violation(f"log-evidence shifts by {float(lz_s) - float(lz)!r} instead of beta*c={beta * c!r}",
                         sig={"kind": "shift-logz"}, detail=detail)
+    # META 4: the SAME object after its history was replaced (import / load) by a different history of the same shape must
+    # answer for the new history, exactly like a fresh object does
+    import os
+    from vlib.runs import quiet, scratch_dir
+
+    lib_call(sm.update_from_dict, sm_s.to_dict(), what="update_from_dict")
+    lw_r, lz_r = lib_call(sm.compute_logw_and_logz, beta, what="compute_logw_and_logz(after update_from_dict)")
+    if np.max(np.abs(np.asarray(lw_r, dtype=float) - np.asarray(lw_s, dtype=float))) > 1e-12 * max(1.0, M) or abs(float(lz_r) - float(lz_s)) > 1e-12 * max(1.0, M + abs(c)):
+        raise Violation("after update_from_dict() replaced the history by another one of the same shape, the weights/evidence are not those "
+                        "of the new history (a fresh object gives different values)", sig={"kind": "stale-after-import"}, detail=detail)
+    if case["seed"] % 4 == 0:
+        with scratch_dir() as td, quiet():
+            pth = os.path.join(td, "state.pkl")
+            lib_call(sm_p.save_state, pth, what="save_state")
+            lib_call(sm.load_state, pth, what="load_state")
+        lw_r, lz_r = lib_call(sm.compute_logw_and_logz, beta, what="compute_logw_and_logz(after load_state)")
+        if np.max(np.abs(np.asarray(lw_r, dtype=float) - np.asarray(lw_p, dtype=float))) > 1e-12 * max(1.0, M) or abs(float(lz_r) - float(lz_p)) > 1e-12 * max(1.0, M):
+            raise Violation("after load_state() replaced the history, the weights/evidence are not those of the loaded history",
+                            sig={"kind": "stale-after-import"}, detail=detail)
     nt = T >= 2 and len(set(case["sizes"][:T])) > 1 and len(set(betas)) >= 2
     classes = ["family:" + case["family"], "T=%d" % T]
     if beta in (0.0, 1.0):
